@@ -208,6 +208,7 @@ type cop struct {
 	given, back bool
 	limit       int
 	yield       bool
+	nested      bool // the iteration consumer reads from the same view
 	ents        []bent
 }
 
@@ -409,8 +410,9 @@ func (c *concWorld) genOp(pool []string, tag string) cop {
 		o.back = o.given && s.Choose(2) == 1
 		o.limit = s.Choose(3)
 		o.yield = s.Choose(2) == 1
+		o.nested = s.Choose(3) == 2
 	case sCommit:
-		n := 1 + s.Choose(3)
+		n := s.Choose(4) // 0: an empty batch is committed
 		for i := 0; i < n; i++ {
 			e := bent{key: pick(), val: fmt.Sprintf("%s.%d", tag, i), del: s.Choose(3) == 1}
 			if i > 0 && s.Choose(4) == 1 {
@@ -466,6 +468,11 @@ func (c *concWorld) run(ci int, script []cop) {
 				got = append(got, kvp{string(k), string(val)})
 				if o.yield {
 					simrt.Yield() // writers run while the consumer is still being fed
+				}
+				if o.nested {
+					// a consumer that reads from the same view while it is being fed (not part of the recorded history: the
+					// point is that the call returns)
+					_, _ = v.st.Has(key)
 				}
 				return !(o.limit > 0 && len(got) >= o.limit)
 			}
